@@ -3,7 +3,7 @@
     containers' proof files. *)
 From Cstl Require Import Prelude.
 From Cstl Require SListModel SListProofs TreeModel TreeProofs TreeSysProofs HeapModel HeapProofs
-  DListModel DListProofs DListProofs3 DListProofs5.
+  DListModel DListProofs DListProofs3 DListProofs5 AllocModel MapModel MapProofs.
 
 Module SL.
 Import SListModel SListProofs.
@@ -143,3 +143,78 @@ End DList.
 Print Assumptions C15_dlist_clear.
 Print Assumptions C15_dlist_no_access_after_callback.
 End DL.
+
+(** * map (red-black tree of allocated nodes; the node is freed after the user callback) *)
+Module MP.
+Import TreeModel AllocModel MapModel MapProofs.
+Section Map.
+  Variable ck : nat -> Z.
+  Variable ok : nat -> N -> bool.
+  Notation mstep := (MapModel.step ck ok).
+
+  (** in every reachable state, clear hands every entry's key and value to
+      the callback exactly once ([log] is a permutation of the entries; the
+      third number of each callback record is the number of nodes still
+      allocated, so the j-th callback runs before the j-th free), frees every
+      node exactly once ([order]: the nodes, without repetition) and leaves
+      the initial map on a heap without live blocks *)
+  Theorem C15_map_clear_each_once s :
+    reach mstep m_init s ->
+    exists log order,
+      Permutation log (entries s) /\ Permutation order (nodes s) /\ NoDup order /\
+      mstep s (MClear true) = Done (cleared s) (cb_zs log (length (entries s))) /\
+      AllocModel.events (mal (cleared s)) = rev (map EvFree order) ++ AllocModel.events (mal s) /\
+      mt (cleared s) = E /\ msz (cleared s) = 0%N /\ mtab (cleared s) = [] /\ live (mal (cleared s)) = [].
+  Proof.
+    intros R. destruct (step_clear ck ok s true (reach_inv ck ok s R))
+      as (log & order & H1 & H2 & H3 & H4 & H5 & _).
+    exists log, order. repeat split; auto.
+  Qed.
+
+  (** event view of clear: every node gets its user callback (with the key
+      and value stored in it), is passed to free immediately afterwards, and
+      is not touched by any other callback or free: the node is released
+      after, never before, the callback for its entry, and the entry handed
+      to the callback is detached from it *)
+  Theorem C15_map_node_freed_after_callback s :
+    reach mstep m_init s ->
+    exists out tr,
+      map_clear true s = Some (cleared s, out, tr) /\
+      forall n, In n (nodes s) ->
+        exists k v pre post,
+          tab_get (mtab s) n = Some (k, v) /\
+          tr = pre ++ CbEv n k v :: FrEv n :: post /\
+          (forall ev, In ev (pre ++ post) -> cev_node ev <> n).
+  Proof.
+    intros R. destruct (clear_events_order ck s (reach_inv ck ok s R)) as (tr & E1 & H).
+    eexists; exists tr. split; [exact E1|exact H].
+  Qed.
+
+  (** reusable: the state after clear is again a reachable state satisfying
+      the invariant, so all of C08's theorems apply to whatever follows *)
+  Theorem C15_map_reusable s cb :
+    reach mstep m_init s ->
+    exists out, mstep s (MClear cb) = Done (cleared s) out /\
+                reach mstep m_init (cleared s) /\ map_inv ck (cleared s) /\ entries (cleared s) = [].
+  Proof.
+    intros R. destruct (step_clear ck ok s cb (reach_inv ck ok s R))
+      as (log & order & _ & _ & _ & H4 & _ & I').
+    eexists. split; [exact H4|]. split; [eapply reach_step; eauto|]. split; auto.
+  Qed.
+End Map.
+
+Example C15_map_example :
+  let st := MapModel.step (ck_mod 0) (script_oracle [] None) in
+  match run st m_init [MInsert 2 0 true; MInsert 0 1 true; MInsert 1 2 true; MClear true; MLive;
+                       MInsert 1 3 true; MFind 1] with
+  | (Done s _, outs) =>
+    entries s = [(1, 3)]%nat /\
+    outs = [[0; 2; 0; 1]; [0; 0; 1; 1]; [0; 1; 2; 1]; [0; 1; 3; 2; 0; 2; 1; 2; 1]; [0]; [0; 1; 3; 1]; [1; 3; 1]]%Z
+  | _ => False
+  end.
+Proof. vm_compute. split; reflexivity. Qed.
+
+Print Assumptions C15_map_clear_each_once.
+Print Assumptions C15_map_node_freed_after_callback.
+Print Assumptions C15_map_reusable.
+End MP.
